@@ -15,6 +15,14 @@ CHECKS = {
          "For all 96 operations, generated typed outputs (plus 0-3 extra headers, optional status override) returned by a scripted backend are decoded by aws-sdk-s3 and must equal what was returned; wire status must be the model's code (206 with Content-Range) or the override; extra headers must be on the wire. CompleteMultipartUpload is run on a paused tokio clock for every completion delay 0..220 ms (thorough 0..450) x {ok, late error}: body = declaration, whitespace only, the same document as the undelayed run; header-bound members in declared trailers; late errors as <Error> documents.",
          "Trusted: aws-sdk-s3 as decoder, Smithy model for status codes/bindings, tokio's paused clock. Number/timing of whitespace frames not asserted.",
          "DESIGN.md §4 C03"),
+ "C12": ("exhaustive enumeration of short bucket names + proptest-driven search over (bucket, key, percent-encoding spelling, host value, host configuration) with metamorphic path-style == virtual-hosted-style relation and verbatim-key oracle at a recording backend",
+         "All 55 987 strings over {a,1,-,.,A,_} up to length 6 (thorough: 335 923 up to 7) plus padded 61-64 byte variants against naming predicates written from the S3 rules; generated requests in both addressing styles must show the backend the same bucket and exactly the client's key (any UTF-8, random escaping), keys <=1024 bytes accepted and longer ones refused with KeyTooLongError; IP/socket hosts are path-style; MultiDomain::new refuses invalid/overlapping lists and resolves hosts against their own domain.",
+         "Trusted: harness naming predicates (self-tested on the documentation examples), RFC 3986 percent-encoder. Don't-cares: names between core-invalid and complete-valid, host-name case, string-but-not-label suffix domains.",
+         "DESIGN.md §4 C12"),
+ "C14": ("proptest-driven search and exhaustive grids against reference implementations written from RFC 3339 / RFC 9110 / Smithy; differential against aws_smithy_types::DateTime; round-trip oracles",
+         "Timestamps: instants in years 1..9999 (ms) x offsets -23:59..+23:59 x 3 formats: s3s must parse the reference rendering and aws_smithy_types' rendering to the same instant, and format->parse must be the identity at the format's precision whatever offset the value is held at (also read back by aws_smithy_types). Ranges: exhaustive (first,last,suffix,length<=12; thorough 20) and boundary/random values against the RFC 9110 interval, header strings near the grammar against a reference grammar. Copy sources: (bucket,key,version) with keys over full UTF-8 through a reference percent-encoder. Mime strings: accepted ones re-render to an equal Mime.",
+         "Trusted: the reference civil-time arithmetic (cross-checked against aws_smithy_types on 10k instants at start-up), RFC 9110 range reference, RFC 3986 encoder. Don't-cares: range unit case, suffix >= 2^63, obsolete HTTP-date forms.",
+         "DESIGN.md §4 C14"),
  "C13": ("proptest-driven search over all XML codec types read from the tree: round-trip oracle, metamorphic XML-equivalent rewrites, structural mutation with a retraction (re-encode and compare infosets) oracle against an independent tokenizer",
          "For each of the 255 types having both an encoder and a decoder: generated values (full XML-carriable Unicode, markup, whitespace) round-trip and encode to documents an independent tokenizer (xmlparser) accepts; one XML-equivalent rewrite (CDATA, character references, comments/PIs, empty-tag form, whitespace, declaration, quoting) must decode to the same value or be refused; after one structural mutation or noise edit, whatever the decoder accepts must be well-formed and fully accounted for by the accepted value (canon(encode(v')) == canon(d)); no panic.",
          "Trusted: xmlparser as independent XML reader, the harness' infoset canonicaliser and tolerant leaf relation. Attributes, DOCTYPE and mixed content of element-only types are stated don't-cares. Interop with an independent S3 client is covered by C02/C03.",
